@@ -11,8 +11,9 @@
 //     call of every thread stops twice (entry, exit). Simple, but a Go program
 //     makes thousands of calls, so a run costs thousands of context switches.
 //   - filtered (Cmd.Filter non-empty): argv is started through a launcher (the
-//     launcher/main.go program, compiled on demand by BuildLauncher) that installs a seccomp-bpf filter returning
-//     SECCOMP_RET_TRACE for the listed calls and then execs the real command.
+//     launcher/main.go program, compiled on demand by BuildLauncher) that
+//     installs a seccomp-bpf filter returning SECCOMP_RET_TRACE for the
+//     listed calls and then execs the real command.
 //     The tracee runs at full speed (PTRACE_CONT); only the listed calls stop:
 //     at the PTRACE_EVENT_SECCOMP stop (= before the call executes, reported
 //     as the entry stop) and, via one PTRACE_SYSCALL step, at its exit stop.
